@@ -408,6 +408,24 @@ func (dsc *Discipline[Type]) waitCalcTactic() error {
 		}
 
 		dsc.getOneFeedback()
+
+		// after a rough stop the feedback may never arrive, so do not wait for it
+		// any longer and do not distribute anything in this round
+		if dsc.isRoughlyStopped() {
+			dsc.resetTactic()
+			return nil
+		}
+	}
+}
+
+func (dsc *Discipline[Type]) isRoughlyStopped() bool {
+	select {
+	case <-dsc.breaker.IsBreaked():
+		return true
+	case <-dsc.opts.Ctx.Done():
+		return true
+	default:
+		return false
 	}
 }
 
